@@ -153,6 +153,18 @@ def family_f1(quick=True):
     pid += 1
     progs.append(dict(I.program(f"p{pid}", ["x"], [I.assign(I.name("a"), I.add(I.read("cv"), I.site(k()))), I.ret(I.read("a"))],
                                 closure=["cv"], pid=pid), form="closure_read", ctx="top", family="F1"))
+    # a function defined in a class body that stores into a private attribute (name mangling), and one whose local carries an
+    # annotation that cannot be evaluated (Python never evaluates the annotations of locals)
+    k = K()
+    pid += 1
+    progs.append(dict(I.program(f"p{pid}", ["x"], [I.assign(I.name("o"), I.obj(k())), I.assign(I.attr("o", "__priv"), I.site(k())),
+                                                  I.assign(I.attr("o", "__dunder__"), I.site(k())), I.ret(I.site(k()))], pid=pid),
+                      klass=True, form="private_attr_in_class", ctx="top", family="F1"))
+    k = K()
+    pid += 1
+    progs.append(dict(I.program(f"p{pid}", ["x"], [I.ann("a", "NoSuchName", I.site(k())), I.ann("b", "no.such[thing]", I.site(k())),
+                                                  I.ret(I.add(I.read("a"), I.read("b")))], pid=pid),
+                      form="unevaluable_annotation", ctx="top", family="F1"))
     # multi-line string literals in an indented definition (the function's source cannot be dedented as text)
     for zero in (False, True):
         k = K()
